@@ -72,6 +72,51 @@ pub fn run(ctx: &Ctx) -> Outcome {
     let mut rep = run_sharded(ctx, |w, nw, rep| {
         let ls = LangSet::new();
         let mut rng = Rng::derive(ctx.seed, "C10", w as u64);
+        // bounded exhaustive part of clause 1: every pair (A, B) of texts of 1..2 words (thorough: B up to 3 words) over the
+        // small alphabet of each language, around one fixed three-filler separator
+        for lex in ls.lex.iter() {
+            let code = lex.code;
+            let alpha = crate::streams::small_alphabet(lex);
+            let k = alpha.len() as u64;
+            let text_of = |depth: u32, idx: u64| -> String { crate::streams::nth_small_stream(&alpha, depth, idx).iter().map(|t| t.text.clone()).collect::<Vec<_>>().join(" ") };
+            let mut parts_a: Vec<String> = Vec::new();
+            for d in 1..=2u32 {
+                for i in 0..k.pow(d) {
+                    parts_a.push(text_of(d, i));
+                }
+            }
+            let mut parts_b = parts_a.clone();
+            if !ctx.quick() {
+                for i in 0..k.pow(3) {
+                    parts_b.push(text_of(3, i));
+                }
+            }
+            if lex.fillers.len() < 3 {
+                continue;
+            }
+            let sep = format!(" {} {} {}. ", lex.fillers[0], lex.fillers[1], lex.fillers[2]);
+            let mut n = 0u64;
+            'pairs: for (ia, a) in parts_a.iter().enumerate() {
+                if ia % nw != w {
+                    continue;
+                }
+                for b in parts_b.iter() {
+                    if n % 2048 == 0 && ctx.elapsed() > ctx.budget_s * 0.35 {
+                        rep.count("exhaustive_enumeration_cut_by_budget");
+                        break 'pairs;
+                    }
+                    n += 1;
+                    for &t in [0.0, 10.0].iter() {
+                        if let Some(msg) = check_split(&ls, code, a, &sep, b, t) {
+                            rep.violation(&format!("{}:split", code), jobj! {"kind" => "split", "lang" => code, "a" => a.as_str(), "s" => sep.as_str(), "b" => b.as_str()}, format!("[{}] {}", code, msg));
+                            break;
+                        }
+                    }
+                    rep.eval(hash_bytes(&[code.as_bytes(), b"x", a.as_bytes(), b.as_bytes()]), true);
+                }
+            }
+            rep.add("exhaustive_small_alphabet_pairs", n);
+        }
         for i in 0..(n_split / nw as u64) {
             if i % 128 == 0 && ctx.elapsed() > ctx.budget_s * 0.65 {
                 break;
@@ -133,7 +178,7 @@ pub fn run(ctx: &Ctx) -> Outcome {
     if !ctx.quick() {
         super::legs::fuzz_leg(ctx, &mut rep, 45);
     }
-    let rule = "clause 1: texts A, B from hostile text, linking sentences and the annotator-state templates (fr: determiner x number|filler x neuf x number|filler|virgule, several per text; en: o between number words / fillers / punctuation), S = 3..5 self-checked filler words ending a sentence, thresholds 0,5,10: rewrite(A S B) == rewrite(A) S rewrite(B); clause 2: spelled a, punctuation p (19 kinds, each containing a non-space character other than - and ', or a dash set off by spaces on both sides), spelled b -> 'a p b'; non-trivial = both parts contain something that is rewritten / every punctuated pair";
+    let rule = "clause 1: every pair of texts A, B of 1..2 words (thorough: B up to 3) over a 16/17-word alphabet per language around a fixed separator at thresholds 0 and 10 (counter exhaustive_small_alphabet_pairs); texts A, B from hostile text, linking sentences and the annotator-state templates (fr: determiner x number|filler x neuf x number|filler|virgule, several per text; en: o between number words / fillers / punctuation), S = 3..5 self-checked filler words ending a sentence, thresholds 0,5,10: rewrite(A S B) == rewrite(A) S rewrite(B); clause 2: spelled a, punctuation p (19 kinds, each containing a non-space character other than - and ', or a dash set off by spaces on both sides), spelled b -> 'a p b'; non-trivial = both parts contain something that is rewritten / every punctuated pair";
     finish(ctx, rep, rule, &["separator words are fillers self-checked against the running library (never number words, linking words or annotator triggers)", "clause 2 is conditioned on both numbers passing their own C01 round-trip"], vec![])
 }
 
